@@ -1146,4 +1146,30 @@ example : LimitsEnforcedAlong pre "m" "target" ls nodeL
       = [[], [DriverCall.write "m" "target" 60]] :=
   ⟨layout_histories pre "m" "target" ls (by decide) _ nodeL wfL layL, by decide +kernel⟩
 
+/-! ### the well-formedness hypothesis is decided for every node the harness builds -/
+
+/-- **wf_of_wfB.**  A node the driver's Boolean test accepts satisfies `Node.WF`: the theorems above speak about it. -/
+theorem wf_of_wfB (pre : Predef) (n : Node J V) (h : wfB pre n = true) : Node.WF pre n := by
+  simp only [wfB, Bool.and_eq_true, decide_eq_true_eq, List.all_eq_true] at h
+  obtain ⟨hnames, hmods⟩ := h
+  have hm : ∀ m ∈ n, (m.accs.map Acc.attr).Nodup ∧ (m.accs.filterMap (wireName pre m)).Nodup ∧
+      (∀ a ∈ m.accs, accKindOKB pre a = true) ∧ (∀ a ∈ m.accs, accConstROB a = true) := by
+    intro m hmem
+    have := hmods m hmem
+    simp only [moduleWfB, Bool.and_eq_true, decide_eq_true_eq, List.all_eq_true] at this
+    exact ⟨this.1.1.1, this.1.1.2, this.1.2, this.2⟩
+  refine ⟨hnames, fun m hmem => (hm m hmem).1, fun m hmem => (hm m hmem).2.1, fun m hmem a ha k hk => ?_,
+    fun m hmem a ha p hp hc => ?_⟩
+  · have := (hm m hmem).2.2.1 a ha
+    simp only [accKindOKB, hk, decide_eq_true_eq] at this
+    exact this
+  · have := (hm m hmem).2.2.2 a ha
+    subst hp
+    simp only [accConstROB, hc, Bool.not_true, Bool.false_or] at this
+    exact this
+
+open Example in
+/-- non-vacuity: the example node passes the test (and so does the one with a class layout) -/
+example : wfB pre node = true ∧ wfB pre LayoutExample.nodeL = true := by decide +kernel
+
 end Frappy.Props.C04
